@@ -80,7 +80,7 @@ pub fn check_layout(module: &Module) -> Result<(), LayoutError> {
         layout_hlsl.size = layout_hlsl.size.next_multiple_of(layout_hlsl.align);
         layout_metal.size = layout_metal.size.next_multiple_of(layout_metal.align);
 
-        if layout_hlsl.size != layout_metal.size {
+        if layout_hlsl.size != layout_metal.size || layout_hlsl.offsets != layout_metal.offsets {
             return Err(LayoutError::MismatchedLayout(
                 loc,
                 layout_hlsl,
@@ -111,7 +111,12 @@ impl CompileError for LayoutError {
                         f,
                         "struct has size={} align={} on HLSL but size={} align={} on Metal",
                         lhs.size, lhs.align, rhs.size, rhs.align,
-                    )
+                    )?;
+                    let mut offsets = lhs.offsets.iter().zip(&rhs.offsets);
+                    match offsets.find(|(l, r)| l != r) {
+                        Some((l, r)) => write!(f, " (member at offset {l} on HLSL is at {r} on Metal)"),
+                        None => Ok(()),
+                    }
                 },
                 *loc,
                 Severity::Error,
@@ -130,6 +135,8 @@ enum PackingMode {
 pub struct Layout {
     size: u32,
     align: u32,
+    /// Byte offset of every scalar / vector member and array element in declaration order
+    offsets: Vec<u32>,
 }
 
 fn get_type_layout(module: &Module, ty: TypeId, mode: PackingMode) -> Option<Layout> {
@@ -142,6 +149,7 @@ fn get_type_layout(module: &Module, ty: TypeId, mode: PackingMode) -> Option<Lay
                 size,
                 // Assume all scalars have the same size and alignment
                 align: size,
+                offsets: Vec::from([0]),
             }),
             None => panic!("unexpected unsized scalar"),
         },
@@ -161,13 +169,22 @@ fn get_type_layout(module: &Module, ty: TypeId, mode: PackingMode) -> Option<Lay
         TypeLayer::Matrix(_, _, _) => None,
         TypeLayer::Struct(sid) => {
             let def = &module.struct_registry[sid.0 as usize];
-            let mut layout = Layout { size: 0, align: 1 };
+            let mut layout = Layout {
+                size: 0,
+                align: 1,
+                offsets: Vec::new(),
+            };
             for member in &def.members {
                 let member_layout = get_type_layout(module, member.type_id, mode)?;
-                layout.size = layout.size.next_multiple_of(member_layout.align);
-                layout.size += member_layout.size;
+                let offset = layout.size.next_multiple_of(member_layout.align);
+                layout
+                    .offsets
+                    .extend(member_layout.offsets.iter().map(|o| offset + o));
+                layout.size = offset + member_layout.size;
                 layout.align = layout.align.max(member_layout.align);
             }
+            // A struct nested in another struct or in an array occupies a multiple of its alignment
+            layout.size = layout.size.next_multiple_of(layout.align);
             Some(layout)
         }
         TypeLayer::StructTemplate(_) => panic!("unexpected struct template"),
@@ -177,8 +194,18 @@ fn get_type_layout(module: &Module, ty: TypeId, mode: PackingMode) -> Option<Lay
         }
         TypeLayer::Object(_) => None,
         TypeLayer::Array(ty, Some(count)) => {
-            let mut layout = get_type_layout(module, ty, mode)?;
-            layout.size *= u32::try_from(count).unwrap();
+            let element = get_type_layout(module, ty, mode)?;
+            let count = u32::try_from(count).unwrap();
+            let mut layout = Layout {
+                size: element.size * count,
+                align: element.align,
+                offsets: Vec::new(),
+            };
+            // The first two elements are enough to pin down the stride
+            for i in 0..count.min(2) {
+                let offsets = element.offsets.iter().map(|o| i * element.size + o);
+                layout.offsets.extend(offsets);
+            }
             Some(layout)
         }
         TypeLayer::Array(_, None) => None,
